@@ -477,7 +477,15 @@ func labelOfAdded(L *Loaded, v ssa.Value) string {
 }
 
 func labelOfElem(L *Loaded, v ssa.Value) string {
+	return labelOfElemSeen(L, v, map[ssa.Value]bool{})
+}
+
+func labelOfElemSeen(L *Loaded, v ssa.Value, seen map[ssa.Value]bool) string {
 	v = resolve(v)
+	if seen[v] {
+		return "" // loop-carried phi: the other edges name the element
+	}
+	seen[v] = true
 	switch x := v.(type) {
 	case *ssa.Call:
 		if cal := x.Common().StaticCallee(); cal != nil {
@@ -489,7 +497,7 @@ func labelOfElem(L *Loaded, v ssa.Value) string {
 		return "dyncall"
 	case *ssa.Extract:
 		if call, ok := x.Tuple.(*ssa.Call); ok {
-			return labelOfElem(L, call)
+			return labelOfElemSeen(L, call, seen)
 		}
 	case *ssa.Alloc:
 		if n, ok := isAstNodeType(x.Type()); ok {
@@ -501,7 +509,9 @@ func labelOfElem(L *Loaded, v ssa.Value) string {
 			if isNilConst(e) {
 				continue
 			}
-			ls = append(ls, labelOfElem(L, e))
+			if l := labelOfElemSeen(L, e, seen); l != "" {
+				ls = append(ls, l)
+			}
 		}
 		return strings.Join(uniq(ls), "|")
 	case *ssa.Parameter:
